@@ -11,15 +11,6 @@ open PV
 /-- bytes the caller has not received yet: read-ahead buffer, then what the stream still holds -/
 def pending (f : BF Chan) : Bytes := f.rbuf ++ f.s.inp
 
-/-- the first line of `p`: through the first LF, or all of `p` when there is none -/
-def lineOf (p : Bytes) : Bytes := if p.contains LF then p.take (p.idxOf LF + 1) else p
-
-/-- what `readline(size)` must return when `p` is still to come -/
-def specLine (size : Option Nat) (p : Bytes) : Bytes :=
-  match size with
-  | none => lineOf p
-  | some sz => lineOf (p.take sz)
-
 /-- configuration that no operation changes -/
 structure Cfg where
   rd : Bool
